@@ -227,6 +227,9 @@ pub fn shrink(sc0: &Scenario, target: &Violation, max_tries: u32, max_wall_s: u6
             if s.dup_poll_pm != 0 {
                 edits.push(Box::new(|s| s.dup_poll_pm = 0));
             }
+            if s.tx_lag_us != 0 {
+                edits.push(Box::new(|s| s.tx_lag_us = 0));
+            }
             if s.rx_chunk_us != 0 {
                 edits.push(Box::new(|s| s.rx_chunk_us = 0));
             }
